@@ -11,6 +11,7 @@ static void hint_reader(vf::Ctx& c, ZSTD_DCtx* dctx, const se::EncResult& er, co
     ZSTD_DCtx_reset(dctx, ZSTD_reset_session_and_parameters);
     if (er.magicless) ZSTD_DCtx_setParameter(dctx, ZSTD_d_format, ZSTD_f_zstd1_magicless);
     ZSTD_DCtx_setParameter(dctx, ZSTD_d_windowLogMax, 31);
+    if (c.t.chance(30)) { ZSTD_DCtx_setParameter(dctx, ZSTD_d_forceIgnoreChecksum, 1); c.label("hint_reader_ignores_checksum"); }
     size_t hint = ZSTD_initDStream(dctx);
     VF_CHECK(c, !ZSTD_isError(hint), "initDStream: %s", ZSTD_getErrorName(hint));
     if (er.magicless) ZSTD_DCtx_setParameter(dctx, ZSTD_d_format, ZSTD_f_zstd1_magicless);
